@@ -46,32 +46,35 @@ using namespace vd;
 typedef VATA::ExplicitTreeAut Aut;
 typedef VATA::ExplicitFiniteAut FA;
 typedef std::vector<std::pair<U, U>> Pairs;
-static const U NOSYM = 999999;
 
-struct WV { std::vector<std::pair<U, U>> starts; std::vector<U> finals; std::vector<std::vector<U>> edges; };
+// word automaton value: W <nstart> s.. <npairs> {s sym}.. <nf> f.. <ne> {src sym dst}..   (pairs = the whole startStateToSymbols_ map)
+struct WV { std::vector<U> startset; std::vector<std::pair<U, U>> syms; std::vector<U> finals; std::vector<std::vector<U>> edges; };
 
 static std::string showW(WV w) {
-	std::sort(w.starts.begin(), w.starts.end()); std::sort(w.finals.begin(), w.finals.end()); std::sort(w.edges.begin(), w.edges.end());
-	std::ostringstream os; os << "W " << w.starts.size(); for (auto& p : w.starts) os << ' ' << p.first << ' ' << p.second;
+	std::sort(w.startset.begin(), w.startset.end()); std::sort(w.syms.begin(), w.syms.end()); std::sort(w.finals.begin(), w.finals.end()); std::sort(w.edges.begin(), w.edges.end());
+	std::ostringstream os; os << "W " << w.startset.size(); for (U x : w.startset) os << ' ' << x;
+	os << ' ' << w.syms.size(); for (auto& p : w.syms) os << ' ' << p.first << ' ' << p.second;
 	os << ' ' << w.finals.size(); for (U f : w.finals) os << ' ' << f;
 	os << ' ' << w.edges.size(); for (auto& e : w.edges) os << ' ' << e[0] << ' ' << e[1] << ' ' << e[2];
 	return os.str();
 }
 static WV obsFA(const FA& a) {
 	WV w; const VATA::ExplicitFiniteAutCore& core = *a.core_;
-	for (auto s : core.startStates_) {
-		auto it = core.startStateToSymbols_.find(s);
-		if (it == core.startStateToSymbols_.end() || it->second.empty()) w.starts.push_back(std::make_pair((U)s, NOSYM));
-		else for (auto sym : it->second) w.starts.push_back(std::make_pair((U)s, (U)sym));
-	}
+	for (auto s : core.startStates_) w.startset.push_back(s);
+	for (auto& kv : core.startStateToSymbols_) for (auto sym : kv.second) w.syms.push_back(std::make_pair((U)kv.first, (U)sym));
 	for (auto f : core.finalStates_) w.finals.push_back(f);
 	for (auto& sc : *core.transitions_) for (auto& ss : *sc.second) for (auto r : ss.second) { std::vector<U> e; e.push_back(sc.first); e.push_back(ss.first); e.push_back(r); w.edges.push_back(e); }
 	return w;
 }
+// rebuild through the public interface: only start states can get start symbols
 static void mkFA(FA& a, const WV& w) {
 	for (auto& e : w.edges) a.AddTransition(e[0], e[1], e[2]);
 	for (U f : w.finals) a.SetStateFinal(f);
-	for (auto& p : w.starts) { if (p.second == NOSYM) a.SetExistingStateStart(p.first, FA::SymbolSet()); else a.SetStateStart(p.first, p.second); }
+	for (U s : w.startset) {
+		bool any = false;
+		for (auto& p : w.syms) if (p.first == s) { a.SetStateStart(s, p.second); any = true; }
+		if (!any) a.SetExistingStateStart(s, FA::SymbolSet());
+	}
 }
 static Pairs readMap(Toks& t) { t.expect("M"); U n = t.num(); Pairs m; for (U i = 0; i < n; ++i) { U k = t.num(); U v = t.num(); m.push_back(std::make_pair(k, v)); } return m; }
 static std::string showMap(const char* tag, Pairs m) { std::sort(m.begin(), m.end()); std::ostringstream os; os << tag << ' ' << m.size(); for (auto& p : m) os << ' ' << p.first << ' ' << p.second; return os.str(); }
